@@ -84,7 +84,10 @@ def gen_behaviour(rng, op):
             items.append({"status": {"t": "int", "v": 0xFF00}, "ds": "ds", "sleep": 0.002})
     b["items"] = items
     if op in ("get", "move"):
-        b["store"] = [rng.choice(["ok", "ok", "ok", "warn", "fail", "raise"]) for _ in range(len(items) + 1)]
+        # "odd:<status>": the storage SCP answers the sub-operation with a status that is neither a Storage service
+        # status nor a general one (or is a Pending / Cancel code, meaningless for C-STORE)
+        b["store"] = [rng.choice(["ok", "ok", "ok", "warn", "fail", "raise", rng.choice(["odd:4660", "odd:53248", "odd:512", "odd:65280", "odd:65024"])])
+                      for _ in range(len(items) + 1)]
     return b
 
 
@@ -235,6 +238,8 @@ def execute(sc, ctx):
             return 0xB000
         if o == "fail":
             return 0xA700
+        if o.startswith("odd:"):
+            return int(o[4:])
         raise HandlerError("scripted store failure")
 
     hh = [(evt.EVT_C_ECHO, ret_handler("echo")), (evt.EVT_C_STORE, ret_handler("store")),
